@@ -979,10 +979,18 @@ func main() {
 	for _, fn := range []string{"GetRequestIDGen", "NewRequest", "MustNewRequest", "NewResponse", "MustNewResponse", "NewPush", "MustNewPush"} {
 		fmt.Fprintf(&w, "def stmts_%s : List String := %s\n", fn, q(stmtTexts(findFunc(pkgs["protocol"], "", fn))))
 	}
+	// statement lists of the small client functions whose behaviour the Keepalive / Reconnect models mirror (C15, C08)
+	for _, fn := range []string{"keepalive", "handlePing", "handlePong", "isAuthExpired", "auth"} {
+		fmt.Fprintf(&w, "def stmts_client_%s : List String := %s\n", fn, q(stmtTexts(findFunc(pkgs["client"], "client", fn))))
+	}
+	for _, fn := range []string{"newDialOptions", "Keepalive", "KeepaliveTimeout", "MaxReconnect", "AuthTimeout", "DialTimeout", "MinGzipSize"} {
+		fmt.Fprintf(&w, "def stmts_opt_%s : List String := %s\n", fn, q(stmtTexts(findFunc(pkgs["client"], "", fn))))
+	}
 	// operation sequences of the client and the transports (T2 "structure": the calls themselves, in source order)
 	for _, fr := range [][2]string{{"client", "Do"}, {"client", "Close"}, {"client", "dial"}, {"client", "reconnecting"}, {"client", "reconnect"},
 		{"client", "reconnectDial"}, {"client", "handleResponse"}, {"client", "register"}, {"client", "unregister"}, {"client", "recv"},
-		{"client", "closeByServer"}, {"client", "onConnClose"}, {"client", "onPacket"}, {"client", "handlePush"}, {"client", "handleControl"},
+		{"client", "closeByServer"}, {"client", "onConnClose"}, {"client", "keepalive"}, {"client", "handlePing"}, {"client", "handlePong"},
+		{"tcpConn", "writing"}, {"tcpConn", "reading"}, {"wsConn", "writing"}, {"wsConn", "reading"}, {"client", "onPacket"}, {"client", "handlePush"}, {"client", "handleControl"},
 		{"tcpConn", "write"}, {"tcpConn", "Close"}, {"tcpConn", "OnPacket"}, {"tcpConn", "addPacket"}, {"tcpConn", "Write"},
 		{"wsConn", "write"}, {"wsConn", "Close"}, {"wsConn", "OnPacket"}, {"wsConn", "addPacket"}, {"wsConn", "Write"}} {
 		fmt.Fprintf(&w, "def seq_%s_%s : List String := %s\n", fr[0], fr[1], q(opSeq(findFunc(pkgs["client"], fr[0], fr[1]))))
